@@ -160,6 +160,11 @@ func (tl *store) Resolve(id did.DID, resolveMetadata *resolver.ResolveMetadata) 
 				// We're trying to resolve the latest, it should not return an older (active) version when deactivated
 				return resolver.ErrDeactivated
 			}
+			if metadata.Deactivated && deactivatedAtRequestedTime(metadata, resolveMetadata) {
+				// The version that was current at the requested time is deactivated:
+				// it should not fall through to an older (active) version.
+				return resolver.ErrDeactivated
+			}
 			if matches(metadata, resolveMetadata) {
 				mdTmp := metadata.asVDRMetadata()
 				returnMetadata = &mdTmp
@@ -351,6 +356,16 @@ func latestNonDeactivatedRequested(resolveMetadata *resolver.ResolveMetadata) bo
 		return false
 	}
 	return !resolveMetadata.AllowDeactivated
+}
+
+// deactivatedAtRequestedTime returns true when a resolve time is given, deactivated documents are not allowed,
+// and the given (deactivated) version already existed at the requested time.
+func deactivatedAtRequestedTime(metadata documentMetadata, resolveMetadata *resolver.ResolveMetadata) bool {
+	if resolveMetadata == nil || resolveMetadata.AllowDeactivated || resolveMetadata.ResolveTime == nil {
+		return false
+	}
+	resolveTime := *resolveMetadata.ResolveTime
+	return !metadata.Updated.After(resolveTime) && !metadata.Created.After(resolveTime)
 }
 
 func (tl *store) HistorySinceVersion(id did.DID, version int) ([]orm.MigrationDocument, error) {
